@@ -285,7 +285,7 @@ Definition drop_constraint (d:dialect) (k:N) : out :=   (* impl.drop_constraint 
 Definition add_constraint (d:dialect) (col:N) (k:N) : out :=
   match d with
   | Dsqlite => ret                      (* SQLiteImpl.add_constraint: util.warn("Skipping unsupported ALTER ...") *)
-  | _ => ([AddConstraint col k], None)  (* self._exec(schema.AddConstraint(const)); the CHECK text names column_name *)
+  | _ => ([AddConstraint col k], None)  (* self._exec(schema.AddConstraint(const)); the CHECK text names the column [col] *)
   end.
 Definition ck_of (t:option ty) : option N := match t with Some t => ty_ck t | None => None end.
 
@@ -295,7 +295,12 @@ Definition toimpl_alter_column (d:dialect) (req:request) (ex:existing) : out :=
    | _, _ => ret
    end) >>
   alter_column d req ex >>
-  (match ck_of (r_type req) with Some k => add_constraint d (e_name ex) k | None => ret end).   (* if type_: *)
+  (* the post-alter table is built with column(new_column_name or column_name, type_): the column has been
+     renamed by now (fix 0b330f6) *)
+  (match ck_of (r_type req) with
+   | Some k => add_constraint d (match r_name req with Some n => n | None => e_name ex end) k
+   | None => ret
+   end).   (* if type_: *)
 
 Definition plan := toimpl_alter_column.
 
